@@ -34,6 +34,120 @@ type Case struct {
 	// the provider's Run returns as soon as it has queued it - long before the startup profile has released its
 	// tokens and with (far) more ammo queued than the run can shoot. Provider.Run returning is not "ammo ran out".
 	Buffered bool `json:"buffered_ammo,omitempty"`
+	// SharedHead / SharedTail (modes long and ammo_short): the pool-wide RPS profile is a composite of the head parts and
+	// a tail that lasts 120 s: "" = const (a known number of tokens), "unlimited" = as many shots as the instances manage.
+	// With an `unlimited` part anywhere ahead the profile cannot tell how many tokens are left (Left() < 0): that is
+	// "unknown", not "finished" - the profile still outlasts the startup profile and every startup token must become an instance.
+	SharedHead []SharedPart `json:"shared_rps_head,omitempty"`
+	SharedTail string       `json:"shared_rps_tail,omitempty"`
+}
+
+// SharedPart is one short part at the beginning of the pool-wide RPS profile.
+type SharedPart struct {
+	Kind   string `json:"kind"`             // unlimited | const | once | pause
+	Tokens int    `json:"tokens,omitempty"` // const, once
+	DurMs  int    `json:"duration_ms,omitempty"`
+}
+
+func (c Case) sharedComposite() bool { return len(c.SharedHead) > 0 || c.SharedTail != "" }
+
+// unknownLength: some part of the shared profile is `unlimited`.
+func (c Case) unknownLength() bool {
+	for _, p := range c.SharedHead {
+		if p.Kind == "unlimited" {
+			return true
+		}
+	}
+	return c.SharedTail == "unlimited"
+}
+
+func (c Case) validateShared() error {
+	if !c.sharedComposite() {
+		return nil
+	}
+	if (c.Mode != "long" && c.Mode != "ammo_short") || c.Buffered {
+		return fmt.Errorf("bad case: shared_rps_head / shared_rps_tail belong to the modes long and ammo_short without buffered_ammo")
+	}
+	if c.SharedTail != "" && c.SharedTail != "unlimited" {
+		return fmt.Errorf("bad case: shared_rps_tail %q", c.SharedTail)
+	}
+	for i, p := range c.SharedHead {
+		ok := false
+		switch p.Kind {
+		case "unlimited", "pause":
+			ok = p.DurMs >= 1 && p.Tokens == 0
+		case "const":
+			ok = p.DurMs >= 1 && p.Tokens >= 1
+		case "once":
+			ok = p.Tokens >= 1 && p.DurMs == 0
+		}
+		if !ok || p.DurMs > 1000 || p.Tokens > 1000 {
+			return fmt.Errorf("bad case: shared_rps_head part %d: %+v", i, p)
+		}
+	}
+	if c.unknownLength() && c.ShotUs < 100 {
+		return fmt.Errorf("bad case: an unlimited shared profile needs shots that take time (shot_us >= 100)")
+	}
+	return nil
+}
+
+// sharedSchedule builds the composite; tail is the part that outlasts the run.
+func (c Case) sharedSchedule(tail core.Schedule) core.Schedule {
+	var parts []core.Schedule
+	for _, p := range c.SharedHead {
+		d := time.Duration(p.DurMs) * time.Millisecond
+		switch p.Kind {
+		case "unlimited":
+			parts = append(parts, schedule.NewUnlimited(d))
+		case "pause":
+			parts = append(parts, schedule.NewConst(0, d))
+		case "const":
+			parts = append(parts, schedule.NewConst((float64(p.Tokens)+0.25)/d.Seconds(), d))
+		case "once":
+			parts = append(parts, schedule.NewOnce(int64(p.Tokens)))
+		}
+	}
+	if c.SharedTail == "unlimited" {
+		tail = schedule.NewUnlimited(120 * time.Second)
+	}
+	return schedule.NewComposite(append(parts, tail)...)
+}
+
+// genShared draws the shape of the shared profile - `unlimited` alone, 1-2 short parts and an unlimited tail, or 1-2 short
+// parts of which one is `unlimited` and a const or unlimited tail - so that at least one part is `unlimited`.
+func genShared(t *rapid.T, c *Case) {
+	shape := rapid.SampledFrom([]string{"alone", "head+unlimited", "head+unlimited", "unlimited_in_head+const", "unlimited_in_head+const", "unlimited_in_head+unlimited"}).Draw(t, "sharedShape")
+	n := 0
+	if shape != "alone" {
+		n = rapid.IntRange(1, 2).Draw(t, "sharedHeadParts")
+	}
+	forced := -1
+	if shape == "unlimited_in_head+const" || shape == "unlimited_in_head+unlimited" {
+		forced = rapid.IntRange(0, n-1).Draw(t, "sharedUnlimitedAt")
+	}
+	for i := 0; i < n; i++ {
+		p := SharedPart{Kind: "unlimited"}
+		if i != forced {
+			p.Kind = rapid.SampledFrom([]string{"unlimited", "const", "const", "once", "once", "pause"}).Draw(t, "sharedPart")
+		}
+		switch p.Kind {
+		case "unlimited", "pause":
+			p.DurMs = rapid.IntRange(1, 40).Draw(t, "sharedPartMs")
+		case "const":
+			p.DurMs = rapid.IntRange(1, 40).Draw(t, "sharedPartMs")
+			p.Tokens = rapid.IntRange(1, 12).Draw(t, "sharedPartTokens")
+		case "once":
+			p.Tokens = rapid.IntRange(1, 12).Draw(t, "sharedPartTokens")
+		}
+		c.SharedHead = append(c.SharedHead, p)
+	}
+	if shape != "unlimited_in_head+const" {
+		c.SharedTail = "unlimited"
+	}
+	// an unlimited part hands out a token whenever it is asked: the shots have to take time
+	if c.ShotUs < 300 {
+		c.ShotUs = 300
+	}
 }
 
 var suOpts = sg.Opts{MaxDepth: 2, MaxChildren: 3, MaxLeafTok: 4, MinDur: time.Millisecond, MaxDur: 40 * time.Millisecond}
@@ -58,7 +172,15 @@ func genCase(t *rapid.T) Case {
 	if c.Mode == "ammo_short" {
 		c.Ammo = rapid.IntRange(0, 30).Draw(t, "ammo")
 	}
-	if (c.Mode == "long" || c.Mode == "per_instance") && rapid.IntRange(0, 2).Draw(t, "buffered") == 0 {
+	if (c.Mode == "long" || c.Mode == "ammo_short") && rapid.IntRange(0, 2).Draw(t, "sharedUnknownLength") == 0 {
+		genShared(t, &c)
+	}
+	// mode long: one case of three has the composite profile above; of the others one of two is buffered (the share of buffered cases stays)
+	bufferedOf := 3
+	if c.Mode == "long" {
+		bufferedOf = 2
+	}
+	if !c.sharedComposite() && (c.Mode == "long" || c.Mode == "per_instance") && rapid.IntRange(1, bufferedOf).Draw(t, "buffered") == 1 {
 		c.Buffered = true
 		if c.Mode == "long" {
 			// shared 100/s profile, cancelled at most ~15.5 s after the start: never more than ~1600 shots
@@ -78,6 +200,9 @@ func check(c Case, o *vf.Obs) error {
 	leaves := sg.Flatten(c.Startup)
 	_, _, total, err := sg.Chain(leaves, time.Unix(1, 0))
 	if err != nil {
+		return err
+	}
+	if err := c.validateShared(); err != nil {
 		return err
 	}
 	su := sg.Build(c.Startup)
@@ -104,6 +229,9 @@ func check(c Case, o *vf.Obs) error {
 		case "long", "ammo_short":
 			if c.Buffered {
 				return schedule.NewConst(100, 120*time.Second), nil
+			}
+			if c.sharedComposite() {
+				return c.sharedSchedule(schedule.NewConst(3000, 120*time.Second)), nil
 			}
 			return schedule.NewConst(3000, 120*time.Second), nil
 		case "shared_outlasts":
@@ -236,6 +364,10 @@ func check(c Case, o *vf.Obs) error {
 				return fmt.Errorf("%d instances started, the startup profile has %d tokens (last one at t0+%v) and nothing cut the start short: the provider's Run returned at t0+%v after queueing all %d ammo, of which only %d were taken (ammo did not run out), 120s shared profile, cancel only after waiting 15s",
 					started, total, tokenTimes[len(tokenTimes)-1].Sub(t0), time.Unix(0, prov.RunReturnAt.Load()).Sub(t0), c.Ammo, len(prov.Delivered()))
 			}
+			if c.sharedComposite() {
+				return fmt.Errorf("%d instances started, the startup profile has %d tokens (last one at t0+%v) and nothing cut the start short: unbounded ammo, the shared RPS profile (head %+v, then 120s %s) has not finished - an unknown number of tokens left is not 'finished' -, cancel only after waiting 15s",
+					started, total, tokenTimes[len(tokenTimes)-1].Sub(t0), c.SharedHead, map[string]string{"": "const", "unlimited": "unlimited"}[c.SharedTail])
+			}
 			return fmt.Errorf("%d instances started, the startup profile has %d tokens and nothing cut the start short (unbounded ammo, 120s profile, cancel only after waiting 15s)", started, total)
 		}
 		if !factoryFailed && finishedBeforeCancel != 0 {
@@ -329,6 +461,20 @@ func check(c Case, o *vf.Obs) error {
 	o.ClassIf(c.Buffered, "provider_run_returned_early_ammo_left/"+c.Mode)
 	o.ClassIf(c.Buffered && !factoryFailed && total >= 2 && time.Unix(0, prov.RunReturnAt.Load()).Before(tokenTimes[len(tokenTimes)-1]),
 		"provider_run_returned_before_last_startup_token")
+	if c.sharedComposite() {
+		spread := total >= 2 && len(distinctInstants) >= 2
+		o.Class("shared_rps_composite_with_endless_tail")
+		o.ClassIf(c.unknownLength(), "shared_rps_unknown_length")
+		o.ClassIf(c.unknownLength(), "shared_rps_unknown_length/"+c.Mode)
+		o.ClassIf(c.unknownLength() && spread, "shared_rps_unknown_length_startup_spread_in_time")
+		o.ClassIf(c.unknownLength() && spread && c.Mode == "long" && !factoryFailed, "shared_rps_unknown_length_all_spread_tokens_must_start")
+		o.ClassIf(c.SharedTail == "unlimited" && len(c.SharedHead) == 0, "shared_rps_unlimited_alone")
+		o.ClassIf(c.SharedTail == "unlimited" && len(c.SharedHead) > 0, "shared_rps_composite_unlimited_tail")
+		o.ClassIf(c.SharedTail == "" && len(c.SharedHead) > 0, "shared_rps_composite_unlimited_head_const_tail")
+		for _, p := range c.SharedHead {
+			o.Class("shared_rps_head_" + p.Kind)
+		}
+	}
 	if total >= 2 && len(distinctInstants) >= 2 {
 		o.NonTrivial()
 	}
